@@ -80,6 +80,7 @@ where D: VizDD<State = F::S> + Default {
     seen.insert(hash_of(&(roots[0].state.as_ref(), 0usize, roots[0].value)));
     let max_roots = 8;
     let mut compiles = 0u64;
+    let mut viz_calls = 0u32;
     let mut i = 0;
     let light = || case.json().set("long_arcs", J::Bool(!inst.all_impacted())).set("depth_in_state", J::Bool(inst.depth_in_state()));
     let mut crashed = false;
@@ -141,12 +142,16 @@ where D: VizDD<State = F::S> + Default {
                             ok
                         }));
                         compiles += 1;
+                        // progress mark of the hang watchdog: a library call has returned
+                        crate::campaign::tick();
                         if reuse { ctx.bump("compilations_on_reused_object", 1); }
                         match res {
                             Err(_) => { crashed = true; break 'outer; }
                             Ok(ok) => {
                                 if ok {
-                                    if let Some(v) = viz {
+                                    // medium / large instances: hundreds of compilations of big diagrams, each rendered under 16 configurations: the first 40 are enough
+                                    if viz.is_some() && inst.nvars() >= 12 { viz_calls += 1; }
+                                    if let Some(v) = viz.filter(|_| viz_calls <= 40) {
                                         let log = dd.last_log.take().unwrap_or_default();
                                         let inner = &dd.inner;
                                         let f = |c: &VizConfig| inner.viz(c);
